@@ -462,6 +462,10 @@ func (ex *Exec) convert(st *State, t *ssa.Convert) {
 		st.updateFamWhere(f, func(p []Term) Term { return eq(p[0], id) }, func(p []Term) Term { _, abs := elemAbs(p); return app(SInt, "gstr.at", x, abs) })
 		n := app(SInt, "gstr.len", x)
 		st.vals[t] = mkSlice(id, intLit(0), n, n)
+		if st.strConv == nil {
+			st.strConv = map[string]Term{}
+		}
+		st.strConv[id.S] = x
 	case fs == SSlice && ts == SStr:
 		st.vals[t] = st.stringOfBytes(st.heap, x)
 	case fs == SInt && ts == SStr:
